@@ -89,7 +89,8 @@ func baseInputs() []input {
 // the enclosing IPv4 / IPv6 headers (or -1).
 func locate(in input, t gopacket.LayerType) (off, ip4, ip6 int) {
 	off, ip4, ip6 = -1, -1, -1
-	data := append([]byte(nil), in.data...)
+	data := make([]byte, len(in.data)) // cap == len: offsets below are capacity differences
+	copy(data, in.data)
 	p := safePacket(data, in.first, true)
 	if p == nil {
 		return
@@ -247,14 +248,14 @@ func hbhSplice(r *vh.Rand, in input) ([]byte, string) {
 
 // variant derives one mutated input (or returns the input itself).
 func variant(r *vh.Rand, in input) input {
-	switch k := r.Intn(13); {
-	case k < 3:
-		return in
-	case k >= 10:
+	if r.Bool() { // IPv6 is rare in the fixtures: every second IPv6 input gets a hop-by-hop header
 		if d, m := hbhSplice(r, in); d != nil {
 			return input{in.name + "~" + m, in.first, d}
 		}
-		fallthrough
+	}
+	switch k := r.Intn(10); {
+	case k < 3:
+		return in
 	case k < 6:
 		if d, m := splice(r, in); d != nil {
 			out := input{in.name + "~" + m, in.first, d}
